@@ -176,7 +176,7 @@ def parse(
         )
 
     if packet is not None:
-        if packet > len(packets):
+        if packet >= len(packets):
             console.print(f"Packet index {packet} out of range with only {len(packets)} packets in the file")
             return
         packets = packets[packet]
